@@ -63,6 +63,10 @@ ok = (not missing) and rc_with != 0 and rc_without == 0
 meta["valid_seed"] = ok
 d = f"/verif/seeded/{dest}"
 os.makedirs(d, exist_ok=True)
+if os.path.exists(f"{d}/meta.json"):
+    old = json.load(open(f"{d}/meta.json"))
+    if "first_result" in old:
+        meta["first_result"] = old["first_result"]
 shutil.copy(f"{seed}/patch.diff", d)
 shutil.copy(f"{seed}/demo.py", d)
 json.dump(meta, open(f"{d}/meta.json", "w"), indent=1)
